@@ -271,7 +271,13 @@ fn arbitrary_no_alpha<'a>() -> BlendAlpha<'a> {
 /// and checks the pixel contract for one symbolic buffer position, i.e. for all positions.
 /// `degenerate`: realise Replace / Add through the no-alpha forms Blend{new: None} / MulAdd{new: None}.
 fn kernel_contract(b: SpecChannelBlend, degenerate: bool) {
+    kernel_contract_v(b, degenerate, 0)
+}
+fn kernel_contract_v(b: SpecChannelBlend, degenerate: bool, variant: u32) {
     let g = any_geo();
+    if variant & 1 != 0 { kani::assume(g.bw == 2 && g.bh == 2 && g.nw == 2 && g.nh == 2); }
+    if variant & 2 != 0 { kani::assume(g.w == 1 && g.h == 1); }
+    if variant & 4 != 0 { kani::assume(g.w == 2 && g.h == 2); }
     let mut base = any_finite4();
     let new = any_finite4();
     let base_alpha = any_finite4();
@@ -314,6 +320,7 @@ fn kernel_contract(b: SpecChannelBlend, degenerate: bool) {
     } else {
         assert!(base[at].to_bits() == old[at].to_bits(), "[C05] samples outside the blended rectangle (and stride padding) are unchanged");
     }
+    if variant & 8 != 0 { return; }
     kani::cover!(inside && g.w == 1 && g.bx == 1 && g.nx == 0 && g.by == 0 && g.ny == 1 && g.h == 1 && have_old_plane == b.uses_alpha);
     kani::cover!(!inside && g.w == 2 && g.h == 1 && py < g.bh);
 }
@@ -376,13 +383,27 @@ fn any_blend(op: SpecOp) -> SpecChannelBlend {
 #[kani::proof]
 #[kani::unwind(4)]
 fn kernel_replace_contract() {
-    kernel_contract(any_blend(SpecOp::Replace), kani::any());
+    kernel_contract(any_blend(SpecOp::Replace), false);
+}
+
+/// kBlend on an image without alpha (Blend { new: None }, any flags) is kReplace
+#[kani::proof]
+#[kani::unwind(4)]
+fn kernel_blend_no_alpha_contract() {
+    kernel_contract(any_blend(SpecOp::Replace), true);
 }
 
 #[kani::proof]
 #[kani::unwind(4)]
 fn kernel_add_contract() {
-    kernel_contract(any_blend(SpecOp::Add), kani::any());
+    kernel_contract(any_blend(SpecOp::Add), false);
+}
+
+/// kMulAdd on an image without alpha (MulAdd { new: None }, any flags) is kAdd
+#[kani::proof]
+#[kani::unwind(4)]
+fn kernel_muladd_no_alpha_contract() {
+    kernel_contract(any_blend(SpecOp::Add), true);
 }
 
 #[kani::proof]
@@ -424,3 +445,4 @@ fn kernel_blend_straight_contract() {
     b.premultiplied = false;
     kernel_contract(b, false);
 }
+
